@@ -179,7 +179,7 @@ def boxSel (b : Box K) (lon lat : List K) : List Nat :=
 def circleSel (d : List K) (r : K) : List Nat :=
   (List.range d.length).filter (fun i => match d[i]? with | some x => decide (x ≤ r) | none => false)
 
-/-- insertion by distance (ties: the earlier index stays first) -/
+/-- insertion by distance (ties in no particular order, as with the trees; judged off ties only) -/
 def insByDist (x : K × Nat) : List (K × Nat) → List (K × Nat)
   | [] => [x]
   | y :: ys => if y.1 ≤ x.1 then y :: insByDist x ys else x :: y :: ys
@@ -361,12 +361,9 @@ deriving Repr, DecidableEq
     large enough matters) -/
 def nNodeOf (t : Table) : Nat := (t.flatten.foldl (fun m x => max m (x + 1)) 0).toNat
 
-def reshape (w : Nat) : List Int → Table
-  | [] => []
-  | x :: xs => if w = 0 then [] else
-      have : (xs.drop (w - 1)).length < (x :: xs).length := by simp [List.length_drop]; omega
-      (x :: xs.take (w - 1)) :: reshape w (xs.drop (w - 1))
-termination_by l => l.length
+/-- `v.reshape(-1, w)` -/
+def reshape (w : Nat) (v : List Int) : Table :=
+  (List.range (v.length / w)).map (fun i => (v.drop (i * w)).take w)
 
 /-- `_populate_edge_node_connectivity`: overwrites `edge_node_connectivity` and its attributes -/
 def popEN (g : State) : State :=
@@ -423,29 +420,29 @@ def runHist (g : State) : List Var → Option State
 /-- the tables the slicer reads -/
 def State.src (g : State) : Src := { t := g.t, EN := g.en.getD [], FE := g.fe.getD [] }
 
-/-- `_slice_face_indices`, repaired.  `ds.isel` slices every variable with a grid dimension;
-    node-indexing tables and `face_edge_connectivity` are re-indexed, the other connectivity
-    tables are dropped, the edge-construction attributes and `hole_edge_indices` do not travel. -/
-def State.slice (g : State) (idx : List Nat) : Option State := do
+/-- `_slice_face_indices` on the dataset.  `ds.isel` slices every variable with a grid dimension;
+    node-indexing tables are re-indexed, the other connectivity tables are dropped.
+    `attrsTravel` : the attributes of `edge_node_connectivity` (with the SOURCE's `inverse_indices`)
+    are copied and `face_edge_connectivity` is dropped (what /repo did) instead of being re-indexed;
+    `holesTravel` : a materialised `hole_edge_indices` (no grid dimension) passes through `isel`
+    untouched (what /repo did) instead of being dropped. -/
+def State.sliceWith (attrsTravel holesTravel : Bool) (g : State) (idx : List Nat) : Option State := do
   let g ← getFE g
   let g := getEN g
   let u := sliceFaces g.src idx
-  pure { w := g.w, t := u.t, en := some u.EN, inv := none, fe := some u.FE,
+  pure { w := g.w, t := u.t, en := some u.EN,
+         inv := if attrsTravel then g.inv else none,
+         fe := if attrsTravel then none else some u.FE,
          npf := g.npf.map (fun N => idx.map (fun f => N.getD f 0)),
-         nf := none, ef := none, ff := none, holes := none,
+         nf := none, ef := none, ff := none,
+         holes := if holesTravel then g.holes else none,
          recd := some (u.nodeIdx, u.faceIdx, u.edgeIdx) }
 
-/-- `_slice_face_indices` as it stands in /repo: `face_edge_connectivity` is dropped, the
-    attributes of `edge_node_connectivity` (with the source's `inverse_indices`) are copied, and
-    `hole_edge_indices` (no grid dimension) passes through `isel` untouched. -/
-def State.sliceAsIs (g : State) (idx : List Nat) : Option State := do
-  let g ← getFE g
-  let g := getEN g
-  let u := sliceFaces g.src idx
-  pure { w := g.w, t := u.t, en := some u.EN, inv := g.inv, fe := none,
-         npf := g.npf.map (fun N => idx.map (fun f => N.getD f 0)),
-         nf := none, ef := none, ff := none, holes := g.holes,
-         recd := some (u.nodeIdx, u.faceIdx, u.edgeIdx) }
+/-- the repaired slicer (fixes/C09-1 and C09-2): nothing stale travels -/
+def State.slice (g : State) (idx : List Nat) : Option State := g.sliceWith false false idx
+
+/-- `_slice_face_indices` as it stands in /repo -/
+def State.sliceAsIs (g : State) (idx : List Nat) : Option State := g.sliceWith true true idx
 
 /-- what a request on `g` reports (`none` = raises) -/
 structure View where
@@ -458,10 +455,24 @@ structure View where
   holes : List Nat
 deriving Repr, DecidableEq
 
-/-- request everything (in the given order) and read the results -/
+/-- the user's requests `order`, then every derived variable is requested and read (each value
+    is read right after its request, as `getattr(grid, name)` does) -/
 def State.view (g : State) (order : List Var) : Option View := do
-  let g ← runHist g (order ++ [.edgeNode, .faceEdge, .nPerFace, .nodeFace, .edgeFace, .faceFace, .holes])
-  pure { en := g.en.getD [], fe := g.fe.getD [], npf := g.npf.getD [], nf := g.nf.getD [],
-         ef := g.ef.getD [], ff := g.ff.getD [], holes := g.holes.getD [] }
+  let g ← runHist g order
+  let g ← request g .edgeNode
+  let en := g.en.getD []
+  let g ← request g .faceEdge
+  let fe := g.fe.getD []
+  let g ← request g .nPerFace
+  let npf := g.npf.getD []
+  let g ← request g .nodeFace
+  let nf := g.nf.getD []
+  let g ← request g .edgeFace
+  let ef := g.ef.getD []
+  let g ← request g .faceFace
+  let ff := g.ff.getD []
+  let g ← request g .holes
+  let holes := g.holes.getD []
+  pure { en := en, fe := fe, npf := npf, nf := nf, ef := ef, ff := ff, holes := holes }
 
 end UxVerif.Slice
